@@ -15,3 +15,31 @@ claim('C09', 'other',
       'Partial: SHAPE rules decide the linear part of the tower exactly (component-wise add/sub/double/negate/is_zero/zero/one, conjugate, v-rotation, Frobenius recursion + table indexing) and CONST decides all 26 Frobenius coefficients; inverse() fails only via the subfield inverse. Multiplication/squaring/inversion/sparse-product formulas are not decided (ring identities over runtime values: not in reach of static analysis).',
       'Necessary structural conditions + complete table conformance; formulas left to tests/other families.',
       'structural MIR rules (component-wise lifting, table-index conformance), constant-table arithmetic', 'DESIGN.md 4.7, 5 C09')
+claim('C04', 'other',
+      'Known-bits abstract interpretation of the four unchecked decoders, exhaustive over the 8 flag-bit combinations with all other input bits unconstrained: each combination produces exactly the outcomes of the format\'s decision table, no untested input bit is discarded, coordinates are range-checked via Fq::from_repr in wire order; checked decoders return Ok only after unchecked success + is_on_curve (uncompressed) + in_subgroup on that value, with the stated error order; in_subgroup = is_on_curve && is_zero([r]P) with the multiplier derived = r; root selection truth table; all assertions on these paths decided. Value-level clauses (sqrt, scalar mult, comparison compute their contracts) are C01/C02/C18.',
+      'Trusted: rustc MIR; from_repr/read_be/sqrt/mul/Ord contracts. Decides validation structure for all inputs, not numeric decoding.',
+      'known-bits abstract interpretation with exhaustive flag enumeration; path/guard analysis; exponent domain', 'DESIGN.md 4.1, 4.5, 5 C04')
+claim('C05', 'other',
+      'Narrow: abstract interpretation of the four encoders (lengths, flag byte per path, coordinate write order, sort flag = y > -y in the coordinate field\'s own order) and agreement with the decoders\' decision tables (same positions, same flag constants, same order, every non-producible flag combination rejected, no input bit discarded) => layout agreement and no second preimage differing in flag/ignored bits. Byte-exact ZCash values and numeric round trip are not decided (value-level).',
+      'Trusted: into_repr canonical (< 2^381), write_be/read_be 48-byte big-endian, Ord contracts.',
+      'known-bits abstract interpretation of encoders/decoders; structural agreement rules', 'DESIGN.md 4.11, 5 C05')
+claim('C08', 'other',
+      'In-repo obligations only: moduli = q(x), r(x) of the BLS parameter; all derive-emitted Montgomery constants equal their definitions; hand-written Montgomery literals (b, -1, generators, 2^256, 2^192) correct and every Fq/Fr literal reduced; only the two unsafe transmute fns wrap raw limbs; ff/ff_derive pinned. The generated limb arithmetic itself (external proc-macro output, numerical) is NOT decided by static analysis of this repository.',
+      'Trusted: ff_derive-zeroize 0.6.2 generates correct arithmetic for correct parameters.',
+      'constant-table conformance on const-evaluated values; who-may-construct rule', 'DESIGN.md 4.3, 5 C08')
+claim('C13', 'other',
+      'Def-use (origin-term) analysis: abort guard is exactly ell > 255 and dominates all hashing; every hash invocation absorbs the RFC 9380 sequence by role (Z_pad typed by BlockSize, msg, I2OSP(len,2), 0, DST_prime; b_0||1; strxor||idx+1; loop 1..ell; truncate); consecutive Length-byte blocks; from_okm = hi*2^(8L/2)+lo with the constant value-checked, for Fq and Fr (sibling agreement); Fq2 = (block0, block1). Byte-exact digest output is not decided.',
+      'Trusted: digest/generic-array/ff contracts. A re-architected equivalent implementation would be reported as unrecognised (fail closed).',
+      'def-use / origin-term matching over MIR, dominators, constant checks', 'DESIGN.md 4.2, 5 C13')
+claim('C15', 'other',
+      'EXP abstract interpretation of the SSWU helper, both addition chains and both osswu_map bodies (2+9 paths) + arithmetic on extracted constants: RFC Z/A\'/B\' in position; chain exponents; candidate shape makes cand^2 v/u a 2nd/8th root of unity; G2 multiplier tables complete => a trial always matches (terminal panic infeasible); returned point is x0 or x1 under a path condition implying y^2 = g(x); x0 first; exceptional denominator; sign fixed with sgn0(y_affine)^sgn0(t). Polynomial values of g are not decided (sums are opaque atoms).',
+      'Trusted: field operation contracts, sgn0/negate_if (C18), Euler criterion.',
+      'abstract interpretation (exponent-vector domain with opaque atoms) over MIR incl. table loops; constant-table arithmetic', 'DESIGN.md 4.4, 5 C15')
+claim('C16', 'other',
+      'Tables decided, evaluator not: the four coefficient tables of each group satisfy the polynomial identity that makes (XNUM/XDEN, y YNUM/YDEN) a normalised degree-11 / degree-3 rational map from E\' (with the A\', B\' SSWU uses) to the target curve, hence an isogeny (image on curve, identity and kernel to identity, homomorphism); own tables in order; scratch sizes cover table lengths. That the projective Horner code evaluates these polynomials is a polynomial identity of code: not decided.',
+      'Trusted: rational maps between elliptic curves fixing infinity are homomorphisms.',
+      'arithmetic on const-evaluated tables (polynomial identity over Fq / Fq2); wiring rules', 'DESIGN.md 4.3, 5 C16')
+claim('C18', 'other',
+      'EXP interpretation of Fq2::sqrt (all four cases of Alg. 9 with exact exponents and the -1 tests), legendre via the norm, known-bits proof that Fq::sgn0 reads bit 0 of the canonical representation, Fq2::sgn0 selection, negate_if polarity, lexicographic Ord for Fq2 with c1 most significant, 2-adic constants. Correctness of Alg. 9 and of the derive-generated Fq/Fr sqrt, legendre, Ord is cited/external, not decided.',
+      'Trusted: ff derive; Alg. 9 (eprint 2012/685).',
+      'abstract interpretation (exponent domain, known-bits), structural rules', 'DESIGN.md 4.4, 5 C18')
